@@ -53,7 +53,7 @@ func runC13(c *Ctx) {
 			t := T(s.Common().Args[len(s.Common().Args)-1])
 			ok := t.Op == "load" && t.Args[0].Op == "global" && strings.HasSuffix(t.Args[0].Sym, "pebble.Sync")
 			c.Require("C13.R1 write-is-synced", "db.(*DB).Write ⇒ pebble Apply", p.InstrPos(s), "write option is the pebble.Sync object", ok, "option: "+t.String())
-			bt := T(s.Common().Args[1])
+			bt := T(ArgK(s, 1))
 			c.Require("C13.R1 write-applies-the-batch", "db.(*DB).Write ⇒ pebble Apply", p.InstrPos(s), "applies the batch parameter's inner pebble batch", bt.String() == "p1.inner", "batch: "+bt.String())
 		} else if strings.Contains(name, "pebble.DB)") {
 			c.Require("C13.R1 write-is-single-apply", "db.(*DB).Write ⇒ "+name, p.InstrPos(s), "Write performs nothing on the pebble DB except one Apply", false, "")
@@ -108,7 +108,7 @@ func runC13(c *Ctx) {
 	// ClearTempBlocks touches the temp family only
 	{
 		iter := CallsIn(clearTemp, "(*db.DB).Iterate")
-		okIter := len(iter) == 1 && keyFamily(T(iter[0].Call.Common().Args[1])) == "blockchain.dbPrefixTemp"
+		okIter := len(iter) == 1 && keyFamily(T(ArgK(iter[0].Call, 1))) == "blockchain.dbPrefixTemp"
 		c.Require("C13.R2 cleartemp-temp-only", "ClearTempBlocks ⇒ Iterate", p.Pos(clearTemp.Pos()), "iterates the temp-block family", okIter, "")
 		for _, op := range DBOps(clearTemp) {
 			if op.Kind == "Write" {
@@ -222,7 +222,7 @@ func runC13(c *Ctx) {
 		}
 		c.Require("C13.R4 stage-write-cache", FuncKey(x.fn)+": stage ≺ Write", p.InstrPos(wr[0].Call), "index writes are staged before the Write", instrDominates(st[0].Call, wr[0].Call), "")
 		c.Require("C13.R4 stage-write-cache", FuncKey(x.fn)+": Write ≺ cache", p.InstrPos(po[0].Call), "the in-memory tip changes only after the Write", instrDominates(wr[0].Call, po[0].Call), "")
-		b1, b2 := T(st[0].Call.Common().Args[1]), T(wr[0].Call.Common().Args[1])
+		b1, b2 := T(ArgK(st[0].Call, 1)), T(ArgK(wr[0].Call, 1))
 		c.Require("C13.R4 stage-write-cache", FuncKey(x.fn)+": same batch", p.InstrPos(wr[0].Call), "the staged batch is the written batch (the batch parameter)", b1.Op == "param" && b1.String() == b2.String(), b1.String()+" vs "+b2.String())
 	}
 
@@ -257,7 +257,7 @@ func runC13(c *Ctx) {
 		}
 		k := FuncKey(fn)
 		for i, w := range wr {
-			src := stripConv(w.Call.Common().Args[1])
+			src := stripConv(ArgK(w.Call, 1))
 			call, isCall := src.(*ssa.Call)
 			ok := isCall && CalleeName(call.Common()) == "(*db.DB).NewBatch"
 			c.Require("C13.R6 write-own-batch", k+" ⇒ (*db.DB).Write", p.InstrPos(w.Call), "the applied batch is one this function created with NewBatch()", ok, "batch: "+T(src).String())
